@@ -21,7 +21,9 @@ fn normalize_b(win: bool, s: &[u8]) -> Vec<u8> {
 pub fn c11(ctx: &mut Ctx, tier: &str, seed: u64) {
     for win in [false, true] {
         let e = gen::e(win);
-        let dom: Vec<Vec<u8>> = (if win { dom_win(tier, seed) } else { dom_unix(tier, seed) }).into_iter().filter(|s| well_formed(win, s)).collect();
+        let mut dom0 = if win { dom_win(tier, seed) } else { dom_unix(tier, seed) };
+        dom0.extend(gen::norm_extra(win, tier, seed));
+        let dom: Vec<Vec<u8>> = dedup_keep_order(dom0).into_iter().filter(|s| well_formed(win, s)).collect();
         for s in &dom {
             let cs = comps(win, s);
             let n = normalize_b(win, s);
@@ -461,6 +463,18 @@ pub fn c17(ctx: &mut Ctx, tier: &str, seed: u64) {
         }
         d.extend(if win { dom_win_small(tier, seed) } else { dom_unix_small(tier, seed) });
         d.extend(if win { strings_b(b"\\/:?*\"<>|\0a.", 3) } else { strings_b(b"/\0a.", 4) });
+        // multi-byte characters whose code point's low byte is a forbidden ASCII byte (a char
+        // table consulted with a truncating cast would reject them)
+        for fb in spec::WINDOWS_FORBIDDEN {
+            for hi in [0x100u32, 0x4e00, 0x1f600] {
+                if let Some(c) = char::from_u32(hi + *fb as u32) {
+                    let mut v = b"d".to_vec();
+                    v.push(if win { b'\\' } else { b'/' });
+                    v.extend_from_slice(c.to_string().as_bytes());
+                    d.push(v);
+                }
+            }
+        }
         let d = dedup_keep_order(d);
         for s in &d {
             let cs = spec_comps(win, s);
